@@ -23,7 +23,7 @@ func init() {
 func (w *World) findStore(fn *ssa.Function, addr, val string) *ssa.Store {
 	for _, b := range fn.Blocks {
 		for _, in := range b.Instrs {
-			if st, ok := in.(*ssa.Store); ok && w.Canon(st.Addr) == addr && (val == "" || w.Canon(st.Val) == val) {
+			if st, ok := in.(*ssa.Store); ok && w.Canon(st.Addr) == addr && (val == "" || w.Canon(st.Val) == val || w.CanonI(st.Val) == val) {
 				return st
 			}
 		}
@@ -49,7 +49,23 @@ func (w *World) findCall(fn *ssa.Function, canon string) ssa.CallInstruction {
 			return c
 		}
 	}
+	for _, c := range CallsIn(fn) {
+		if w.plainThenInlinedArgs(c.Common()) == canon {
+			return c
+		}
+	}
 	return nil
+}
+
+// plainThenInlinedArgs renders a call keeping the callee itself but inlining
+// simple helpers inside its receiver and arguments.
+func (w *World) plainThenInlinedArgs(c *ssa.CallCommon) string {
+	w.inlineHelpers = true
+	w.inlineEnv = append(w.inlineEnv, nil, nil, nil) // depth guard: do not inline the outer call itself
+	s := w.canonCall(c, 0)
+	w.inlineEnv = w.inlineEnv[:len(w.inlineEnv)-3]
+	w.inlineHelpers = false
+	return s
 }
 
 func (w *World) findCallMatch(fn *ssa.Function, re *regexp.Regexp) []ssa.CallInstruction {
@@ -97,7 +113,7 @@ func (w *World) entryOnlyVia(b *ssa.BasicBlock, conds ...string) bool {
 
 // condCanonHolds: block b is dominated by the `want` edge of an If whose canonical condition is cond.
 func (w *World) condCanonHolds(b *ssa.BasicBlock, cond string, want int) bool {
-	return w.condHolds(b, want, func(c ssa.Value) bool { return w.Canon(c) == cond })
+	return w.condHolds(b, want, func(c ssa.Value) bool { return w.Canon(c) == cond || w.CanonI(c) == cond })
 }
 
 const elem = `\[\(phi\(\(φ \+ 1\)\|-1\) \+ 1\)\]` // range element index
@@ -105,12 +121,17 @@ const elem = `\[\(phi\(\(φ \+ 1\)\|-1\) \+ 1\)\]` // range element index
 // ---------------------------------------------------------------- C11
 
 func checkC11(w *World, r *Report) {
-	r.Explanation = "Structural clause of C11: (B-1) every Delegatee method that changes the stake list adjusts TotalPower by the same stake's Power and SelfPower when the stake is a self stake (addStake, DelStake, DelStakeByIdx), or recomputes both from the list (doSlashAll); DelAllStakes subtracts every removed power from TotalPower and each of its call sites either runs where SelfPower == 0 or deletes the delegatee; the stake list has a closed set of writers; (B-2) every stake removed by DelStake / DelAllStakes in controller code is handed to the frozen ledger on the same success path, after its refund height was set; slashing is the only removal without destination; (B-3) a stake's owner, target and key are never written after construction; (B-4) the total-power query sums TotalPower over the immutable ledger."
+	r.Explanation = "Structural clause of C11: (B-1) every Delegatee method that changes the stake list adjusts TotalPower by the same stake's Power and SelfPower when the stake is a self stake (addStake, DelStake, DelStakeByIdx), or recomputes both from the list (doSlashAll); DelAllStakes subtracts every removed power from TotalPower and each of its call sites either runs where SelfPower == 0 or deletes the delegatee; the stake list has a closed set of writers; (B-2) every stake removed by DelStake / DelAllStakes in controller code is handed to the frozen ledger on the same success path, after its refund height was set; slashing is the only removal without destination; (B-3) a stake's owner, target and key are never written after construction; (B-4) the total-power query sums TotalPower over the immutable ledger; (B-5) several operations on one delegatee inside one block see each other through the overlay, including deletion and re-creation (C18 L-1)."
 	r.NotCovered = "the sums as numbers over a history; the ledger's overlay semantics (C18); JSON round-trip of delegatees."
 	b1(w, r)
 	b2(w, r)
 	b3(w, r)
 	b4(w, r)
+	// B-5: several operations on one delegatee inside a block see each other (C18 L-1)
+	if r.importObs(w, func(t *Report) { l1(w, t) }, "L-1", "B-5") == 0 {
+		r.Undecided("B-5", "ledger-semantics", "the ledger's overlay semantics could not be evaluated")
+	}
+	r.Floor("B-5", 2, "ledger overlay semantics")
 	r.Floor("B-1", 12, "power bookkeeping")
 	r.Floor("B-2", 5, "one place per stake")
 	r.Floor("B-3", 3, "immutable stake identity")
